@@ -80,13 +80,25 @@ pub fn gen_base(seed: u64, idx: u64) -> Plan {
             }
             5 => {
                 // half-sent head, later finished or abandoned
-                let w = work(nonce, r.range(0, 2) as u32, r.range(20, 300), 100, None);
+                let late_orphan = r.chance(1, 3);
+                let w = if late_orphan {
+                    work(nonce, r.range(2, 4) as u32, r.range(200, 600), 100, None)
+                } else {
+                    work(nonce, r.range(0, 2) as u32, r.range(20, 300), 100, None)
+                };
                 nonce += 1;
                 let b = w.bytes();
                 let k = r.usize_in(1, b.len() - 1);
                 steps.push(Step::Send { data: Blob(b[..k].to_vec()), completes: None });
                 steps.push(Step::Sleep { ms: *r.pick(&[50u64, 400, 2_000, 12_000, 35_000]) });
-                if r.chance(1, 2) {
+                if late_orphan {
+                    // finish the request, then leave while the handler runs:
+                    // if shutdown was requested during the pause, this is a
+                    // handler born during the drain whose client is gone
+                    steps.push(Step::Send { data: Blob(b[k..].to_vec()), completes: Some(0) });
+                    steps.push(Step::Sleep { ms: r.range(5, 200) });
+                    steps.push(if r.chance(1, 2) { Step::Close } else { Step::Reset });
+                } else if r.chance(1, 2) {
                     steps.push(Step::Send { data: Blob(b[k..].to_vec()), completes: Some(0) });
                     steps.push(Step::AwaitResponses { count: 1, max_ms: AWAIT_MS });
                 } else {
@@ -215,6 +227,7 @@ impl Scenario for C17 {
             "restart_served",
             "waiter_checked",
             "started_handler_response_checked",
+            "handler_started_during_drain",
         ]
     }
 
@@ -427,6 +440,39 @@ pub fn check_c17(
     }
     if inflight >= 2 {
         probes.push("close_with_2plus_inflight");
+    }
+    // rule 2 (second half): shutdown does not finish while any detached
+    // handler is still running, including one that started during the drain
+    // (its request was half-sent when shutdown was requested).
+    if let (Some(c), Mode::Detached, false) = (cret, plan.server.mode, sd.by_drop) {
+        let gated: HashSet<u64> = plan
+            .conns
+            .iter()
+            .filter(|cp| cp.gate != 0)
+            .flat_map(|cp| cp.reqs.iter().map(|r| r.nonce))
+            .collect();
+        for (nonce, h) in &hist {
+            if gated.contains(nonce) {
+                continue;
+            }
+            let Some((eseq, _)) = h.enter.first().copied() else { continue };
+            if eseq > c.seq {
+                continue;
+            }
+            if eseq > creq.seq {
+                probes.push("handler_started_during_drain");
+            }
+            let ended = h.terminal.first().map(|t| t.0 < c.seq).unwrap_or(false);
+            if !ended && eseq > creq.seq {
+                v.push(Violation {
+                    rule: "c17.detached_not_awaited".into(),
+                    detail: format!(
+                        "detached handler nonce {} started at seq {} (after shutdown was requested at seq {}, during the drain) and was still running when close() returned at seq {} ({:?})",
+                        nonce, eseq, creq.seq, c.seq, h.terminal.first()
+                    ),
+                });
+            }
+        }
     }
     // rule 3: after close returned, the port refuses connections
     if let Some(c) = cret {
